@@ -35,7 +35,7 @@ func (s *Sup) rec(kind string, from gen.PID, msg any, reason error, st int64) {
 
 func (s *Sup) Init(args ...any) (spec act.SupervisorSpec, err error) {
 	st := s.g.enter(s.Cfg.Probe, s.Cfg.Label, "init")
-	defer func() { s.rec("init", gen.PID{}, nil, err, st) }()
+	defer func() { s.rec("init", s.Parent(), nil, err, st) }() // From = parent pid
 	spin(s.Cfg.SpinNs)
 	return s.Cfg.Spec(args...)
 }
@@ -162,7 +162,7 @@ func (p *Pool) rec(kind string, from gen.PID, msg any, reason error, st int64) {
 
 func (p *Pool) Init(args ...any) (o act.PoolOptions, err error) {
 	st := p.g.enter(p.Cfg.Probe, p.Cfg.Label, "init")
-	defer func() { p.rec("init", gen.PID{}, nil, err, st) }()
+	defer func() { p.rec("init", p.Parent(), nil, err, st) }() // From = parent pid
 	spin(p.Cfg.SpinNs)
 	return p.Cfg.Options(args...)
 }
